@@ -29,7 +29,7 @@ RULE = (
     "over the adaptive call sequence + always-raise; state = (program point, raises so far), "
     "transition = one destination call; invariant evaluated on good's stream after each "
     "execution; plus a fork scenario (a process that already logged forks 1-3 workers, all log new "
-    "tasks into one shared file, real uuid4); non-trivial = program with an action and at least one "
+    "tasks into one shared file, real uuid4); every program also run entirely before the first add_destinations (startup-buffer replay) and with a destination that keeps the dictionaries it is given; non-trivial = program with an action and at least one "
     "raise explored"
 )
 ASSUMPTIONS = [
@@ -50,7 +50,7 @@ def schema(tier):
         "a": [
             ("style", BOUNDS(tier)["styles"]),
             ("typed", 2),
-            ("exit", 9),
+            ("exit", 10),
             ("sf", 2),
             ("ef", 2),
             ("xf", 3),
@@ -61,7 +61,7 @@ def schema(tier):
 
 # exit index -> progs.EXITS index: ok, ValueError, OSError, Custom, KeyboardInterrupt,
 # StrRaises, ValueError caught one level up, ValueError to the top
-EXIT_MAP = [0, 1, 2, 3, 4, 6, 11, 12, 16]  # 16: exception whose extractor raises (its traceback is logged)
+EXIT_MAP = [0, 1, 2, 3, 4, 6, 11, 12, 16, 15]  # 16: exception whose extractor raises (its traceback is logged)
 STYLE_MAP = [0, 1, 2, 3, 4, 5, 8, 9]  # no remote styles (C06); 8, 9 = re-entry of the current action
 
 
@@ -244,6 +244,29 @@ def run_case(case):
             viol.append((sig, dict(d, order=order, strategy="always")))
         for sig, d in it.problems:
             viol.append(("api:" + sig, {"strategy": "always"}))
+    # the whole program runs before the first add_destinations(): what the startup buffer replays
+    # (and, separately, what a destination that keeps the dictionaries it was given holds at the end)
+    def late():
+        it = progs.Interp(prog, tag=True)
+        it.run()
+        got = []
+        eliot.add_destinations(got.append)
+        kept = []
+        return got, kept
+
+    def keeping():
+        kept = []
+        eliot.add_destinations(kept.append)
+        progs.Interp(prog, tag=True).run()
+        return kept
+
+    replayed, _ = world.run_isolated(late)
+    kept = world.run_isolated(keeping)
+    execs += 2
+    for name, stream in (("startup-buffer-replay", replayed), ("dictionaries-kept-by-a-destination", kept)):
+        for sig, d in structinv.check_stream(stream):
+            viol.append(("%s:%s" % (name, sig), d))
+            break
     has_action = any(x[0] == "a" for x in progs.walk(prog))
     return Result(
         outcome=[sorted(outcomes), execs],
